@@ -10,6 +10,7 @@ def errProtocolViolation : Nat := 10
 
 structure Ev where
   arrival : Option Int := none                 -- packet number of the packet the peer sent (in the scripted space)
+  challenge : Bool := false                    -- it carried a PATH_CHALLENGE
   peerAck : List (Int × Int) := []             -- ranges of the ACK frame it carried (none: [])
   sent : List Int := []                        -- numbers of the packets the Conn sent in the scripted space
   acks : List (List (Int × Int)) := []         -- ACK frames the Conn sent in the scripted space
@@ -58,7 +59,9 @@ def check (st : WState) (e : Ev) : Bool :=
   (e.resp.all fun pn => !(st.procd.contains pn)) && nodupB e.resp &&
   -- clause 3: a (processed) peer ACK closes the connection with PROTOCOL_VIOLATION iff it covers a never-sent number
   (if !e.peerAck.isEmpty && isFresh st e
-   then coversUnsent st e.peerAck == (e.close == some errProtocolViolation) else true)
+   then coversUnsent st e.peerAck == (e.close == some errProtocolViolation) else true) &&
+  -- delivery: a packet numbered above everything before it is decoded to its number and processed (answered)
+  (if e.challenge && isFresh st e then (match e.arrival with | some p => e.resp.contains p | none => true) else true)
 
 def next (st : WState) (e : Ev) : WState :=
   { st with arrived := arrivedAfter st e, sent := st.sent ++ e.sent, procd := st.procd ++ e.resp }
